@@ -118,72 +118,81 @@ func (it *Iterator) SeekToLast() {
 	}
 }
 
-// Seek positions the iterator at the first key >= target
+// Seek positions the iterator at the first key >= target. It returns false and
+// leaves the iterator invalid when every key of the block is smaller
 func (it *Iterator) Seek(target []byte) bool {
+	// The first key >= target is the floor of target if that is target itself,
+	// otherwise the entry after the floor (the first entry if there is no floor)
+	if !it.SeekFloor(target) {
+		it.SeekToFirst()
+		return it.Valid()
+	}
+	if bytes.Equal(it.currentKey, target) {
+		return true
+	}
+	return it.Next()
+}
+
+// SeekFloor positions the iterator at the last key <= target. It returns false
+// and leaves the iterator invalid when every key of the block is greater
+func (it *Iterator) SeekFloor(target []byte) bool {
+	it.initialized = true
+	it.currentKey = nil
+	it.currentVal = nil
+
 	if len(it.reader.restartPoints) == 0 {
 		return false
 	}
 
-	// Binary search through restart points
+	// Binary search for the last restart point whose key is <= target: the
+	// floor of target lies between it and the following restart point
 	left, right := 0, len(it.reader.restartPoints)-1
 	for left < right {
-		mid := (left + right) / 2
-		it.restartIdx = mid
+		mid := (left + right + 1) / 2
 		it.currentPos = it.reader.restartPoints[mid]
 
 		key, _, ok := it.decodeCurrent()
 		if !ok {
+			it.currentKey = nil
+			it.currentVal = nil
 			return false
 		}
 
-		if bytes.Compare(key, target) < 0 {
-			left = mid + 1
+		if bytes.Compare(key, target) <= 0 {
+			left = mid
 		} else {
-			right = mid
+			right = mid - 1
 		}
 	}
 
 	// Position at the found restart point
 	it.restartIdx = left
 	it.currentPos = it.reader.restartPoints[left]
-	it.initialized = true
 
-	// First check the current position
 	key, val, ok := it.decodeCurrent()
-	if !ok {
+	if !ok || bytes.Compare(key, target) > 0 {
+		// Even the first key of the block is greater than target
+		it.currentKey = nil
+		it.currentVal = nil
 		return false
 	}
 
-	// If the key at this position is already >= target, we're done
-	if bytes.Compare(key, target) >= 0 {
-		it.currentKey = key
-		it.currentVal = val
-		return true
-	}
-
-	// Otherwise, scan forward until we find the first key >= target
+	// Move forward for as long as the following key is still <= target
 	for {
 		savePos := it.currentPos
-		key, val, ok = it.decodeNext()
-		if !ok {
-			// Restore position to the last valid entry
-			it.currentPos = savePos
-			key, val, ok = it.decodeCurrent()
-			if ok {
-				it.currentKey = key
-				it.currentVal = val
-				return true
-			}
-			return false
-		}
+		saveSeqNum := it.currentSeqNum
 
-		if bytes.Compare(key, target) >= 0 {
+		nextKey, nextVal, ok := it.decodeNext()
+		if !ok || bytes.Compare(nextKey, target) > 0 {
+			// Stay on the entry decoded before, with the position behind it
+			it.currentPos = savePos
+			it.currentSeqNum = saveSeqNum
 			it.currentKey = key
 			it.currentVal = val
 			return true
 		}
 
-		// Update current key/value for the next iteration
+		key, val = nextKey, nextVal
 		it.currentKey = key
 		it.currentVal = val
 	}
